@@ -226,13 +226,13 @@ def is4xx : Err → Bool
 /-- with the `errors_map` of the source (regenerated from `DefaultConfig.errors_map` on every
 run) both client errors of the body reader are answered 4xx -/
 theorem chunked_400 (e : Err) (h : e = .bodyParsingError ∨ e = .bodySizeError) :
-    is4xx (raise_ Ombott.Gen.errorsMap e "RequestError") = true := by
+    is4xx (raise_ Ombott.Gen.bodyErrorsMap e "RequestError") = true := by
   rcases h with rfl | rfl <;> decide
 
 /-- hence a chunked request is answered 2xx-or-4xx as far as the body reader is concerned:
 whatever the bytes, `Request.body` under the `errors_map` of the source either succeeds or raises
 an `HTTPError` with a 4xx status (given a well-formed or absent Content-Length header) -/
-theorem chunked_request_4xx (q : Req) (e : Err) (cl : Int) (hmap : q.cfg.errorsMap = Ombott.Gen.errorsMap)
+theorem chunked_request_4xx (q : Req) (e : Err) (cl : Int) (hmap : q.cfg.errorsMap = Ombott.Gen.bodyErrorsMap)
     (hcl : contentLength q.clHeader = .ok cl) (hc : q.cache = none) (hb : q.bodyError = none)
     (h : (q.body).1 = .error e) : is4xx e = true := by
   unfold Req.body Req.loadBody at h
